@@ -196,6 +196,16 @@ func (t *trSys) kill(addr string) {
 	t.kills++
 	// the server is really gone: its listener has stopped and it has closed every accepted connection
 	// (independent of client-side threads that may be stalled)
+	if t.keep {
+		// a server-side thread may be among the stalled ones (a connection accepted just before Close and not yet
+		// registered survives Server.Close until its peer goes): the server process is killed, its sockets are closed
+		t.settle()
+		for _, c := range t.n.conns {
+			if c.addr == addr && !c.end.p.closed[1] && !c.end.p.closed[0] && !c.end.p.dead {
+				c.end.Kill()
+			}
+		}
+	}
 	vs.Block("wait for the server to be down", func() bool {
 		if l := t.n.lis[addr]; l != nil && !l.closed {
 			return false
@@ -360,10 +370,11 @@ const (
 	evRefusedStreamA
 	evManyLongA
 	evManyLongB
+	evReleaseKeep
 	nTrEvents
 )
 
-var trEvNames = []string{"call(a)", "call(b)", "ping(a)", "go(a)", "long(a)", "stream(a)", "release", "tick", ">keepalive", ">idle", "closeidle", "kill(a)", "restart(a)", "closestream", "refused-stream(a)", "many-long(a)", "many-long(b)"}
+var trEvNames = []string{"call(a)", "call(b)", "ping(a)", "go(a)", "long(a)", "stream(a)", "release", "tick", ">keepalive", ">idle", "closeidle", "kill(a)", "restart(a)", "closestream", "refused-stream(a)", "many-long(a)", "many-long(b)", "release-keep"}
 
 func (t *trSys) do(ev int) {
 	switch ev {
@@ -416,6 +427,14 @@ func (t *trSys) do(ev int) {
 				t.longCall("b")
 			}
 		}
+	case evReleaseKeep:
+		// the held handlers answer; threads the explorer has stalled stay stalled (a caller whose reply has
+		// arrived and who has not yet returned into the Transport)
+		t.nbusy = 0
+		for _, l := range t.long {
+			t.w[l.addr].open(l.c.tag)
+		}
+		t.log = append(t.log, "release-keep")
 	case evRefusedStreamA:
 		// a stream the server refuses (unknown method): nothing stays open on the connection
 		if t.up["a"] {
@@ -582,6 +601,14 @@ func init() {
 	late := []int{evCallA, evRestartA, evLongA, evTick, evKillA}
 	register(&Scenario{Prop: "C14", Name: "c14/late-return-L3", Quick: []Bound{{1, 0}}, Thorough: []Bound{{2, 0}}, Body: trSeqBodyK("C14", true, 3, late, trLimits[:2], evLongA, evKillA), MaxSteps: 200000})
 	register(&Scenario{Prop: "C14", Name: "c14/late-return-L4", Quick: []Bound{}, Thorough: []Bound{{1, 0}}, Body: trSeqBodyK("C14", true, 4, late, trLimits[:2], evLongA, evKillA), MaxSteps: 200000, BudgetT: 300})
+	// every pooled connection of a host has died quietly (server restarted while they were unused): calls and ticks
+	// afterwards; each dead connection fails at most one call, whatever the order in which they are retired and replaced
+	deadAb := []int{evCallA, evTick}
+	register(&Scenario{Prop: "C14", Name: "c14/all-pooled-connections-dead-L7", Quick: []Bound{{0, 0}}, Thorough: []Bound{{1, 0}}, Body: trSeqBody("C14", 7, deadAb, [][2]int{{2, 1}, {2, 2}, {3, 2}, {3, 3}}, evManyLongA, evRelease, evKillA, evRestartA), MaxSteps: 400000, BudgetQ: 25, BudgetT: 300})
+	// a call whose reply has arrived returns into the Transport late (stalled caller), after the connection has died
+	// and failed another call
+	lateOK := []int{evKillA, evCallA, evRelease, evRestartA}
+	register(&Scenario{Prop: "C14", Name: "c14/late-success-L4", Quick: []Bound{{1, 0}}, Thorough: []Bound{{2, 0}}, Body: trSeqBodyK("C14", true, 4, lateOK, trLimits[:2], evLongA, evReleaseKeep), MaxSteps: 200000, BudgetQ: 30, BudgetT: 300, SoloStalls: true})
 	register(&Scenario{Prop: "C14", Name: "c14/concurrent", Quick: []Bound{{1, 0}}, Thorough: []Bound{{2, 0}}, Body: trConcBody("C14", trLimits[:3]), MaxSteps: 200000})
 	c20ab := []int{evCallA, evCallB, evGoA, evLongA, evStreamA, evTick, evPastKeepAlive, evCloseIdle, evKillA, evRestartA}
 	register(&Scenario{Prop: "C20", Name: "c20/transport-histories-L3", Quick: []Bound{{0, 0}}, Thorough: []Bound{{1, 0}}, Body: trSeqBody("C20", 3, c20ab, [][2]int{{2, 2}, {2, 1}, {3, 2}, {1, 1}}), MaxSteps: 200000, OnlyKeys: []string{"C20/", "panic/", "livelock/"}})
